@@ -884,9 +884,17 @@ case_nc(long idx, void *ctx)
         int v   = ncvardef(id, "var", NCT[t], rank, dims);
         ncattput(id, v, "att", NC_LONG, 2, av);
         ncattput(id, NC_GLOBAL, "gatt", NC_CHAR, 5, "hello");
+        int32 one = 1;
+        ncattput(id, v, "att2", NC_LONG, 1, &one);
+        ncattput(id, NC_GLOBAL, "gatt2", NC_CHAR, 4, "abcd");
         ncendef(id);
         long st[2] = {0, 0}, cn[2] = {d0, d1};
         int  rc    = ncvarput(id, v, st, cn, data);
+        /* in data mode an attribute may be given a new value of another type as long as it does not grow */
+        float   f25   = 2.5f;
+        int16   s2[2] = {11, 12};
+        if (ncattput(id, v, "att2", NC_FLOAT, 1, &f25) < 0 || ncattput(id, NC_GLOBAL, "gatt2", NC_SHORT, 2, s2) < 0)
+            rc = -1;
         if (ncclose(id) < 0 || rc < 0 || v < 0) {
             mc_violation("nc:write-failed", "%s: the netCDF-style calls refused a legal variable", g_case);
             return;
@@ -901,6 +909,10 @@ case_nc(long idx, void *ctx)
         int32 rc = SDwritedata(s, st, NULL, cn, data);
         SDsetattr(s, "att", DFNT_INT32, 2, av);
         SDsetattr(S, "gatt", DFNT_CHAR8, 5, "hello");
+        float32 f25   = 2.5f;
+        int16   s2[2] = {11, 12};
+        SDsetattr(s, "att2", DFNT_FLOAT32, 1, &f25);
+        SDsetattr(S, "gatt2", DFNT_INT16, 2, s2);
         SDendaccess(s);
         if (SDend(S) == FAIL || rc == FAIL) {
             mc_violation("nc:write-failed", "%s: SD refused a legal variable", g_case);
@@ -927,6 +939,18 @@ case_nc(long idx, void *ctx)
                 char  an[H4_MAX_NC_NAME + 1];
                 if (ai == FAIL || SDattrinfo(s, ai, an, &ant, &acn) == FAIL || ant != DFNT_INT32 || acn != 2 || SDreadattr(s, ai, gv) == FAIL || gv[0] != av[0] || gv[1] != av[1])
                     DISAGREE("nc:sd-attribute", "%s: SD sees attribute type %d count %d values %d,%d", who, (int)ant, (int)acn, (int)gv[0], (int)gv[1]);
+                {
+                    /* the attributes that were given a value of another type after the definitions were complete */
+                    int32   a2 = SDfindattr(s, "att2"), g2 = SDfindattr(S, "gatt2"), t2 = 0, c2 = 0;
+                    float32 fgot = 0;
+                    int16   sgot[2] = {0, 0};
+                    if (a2 == FAIL || SDattrinfo(s, a2, an, &t2, &c2) == FAIL || t2 != DFNT_FLOAT32 || c2 != 1 || SDreadattr(s, a2, &fgot) == FAIL || fgot != 2.5f)
+                        DISAGREE("nc:sd-attribute-retyped", "%s: SD sees the re-put variable attribute as type %d count %d value %g (float32 x1 2.5 was put)", who, (int)t2, (int)c2, (double)fgot);
+                    t2 = c2 = 0;
+                    if (g2 == FAIL || SDattrinfo(S, g2, an, &t2, &c2) == FAIL || t2 != DFNT_INT16 || c2 != 2 || SDreadattr(S, g2, sgot) == FAIL || sgot[0] != 11 || sgot[1] != 12)
+                        DISAGREE("nc:sd-attribute-retyped", "%s: SD sees the re-put global attribute as type %d count %d values %d,%d (int16 x2 11,12 was put)", who, (int)t2, (int)c2, sgot[0],
+                                 sgot[1]);
+                }
                 char gs[16] = "";
                 ai          = SDfindattr(S, "gatt");
                 if (ai == FAIL || SDreadattr(S, ai, gs) == FAIL || strncmp(gs, "hello", 5))
